@@ -123,7 +123,7 @@ def run_handles(out, tier):
         # finalised while other files are still open, then re-read
         # thorough: every schedule of the model is model-checked; a seeded
         # sample of 4000 of them is replayed (x 4 constructor kinds)
-        n = 400 if tier == 'quick' else 4000
+        n = 240 if tier == 'quick' else 4000
         chosen = scheds if n >= len(scheds) else rnd.sample(scheds, n)
         args = []
         tid = 0
